@@ -278,6 +278,12 @@ def main():
             items.append((1, 3, 'nu', edge, 2, None))
             items.append((3, 3, 'nu', edge, 1, None))
             items.append((4, 2, 'nu', edge, 1, None))
+            items.append((5, 2, 'nu', edge, 1, None))
+            items.append((2, 4, 'nu', edge, 2, None))
+            items.append((3, 4, 'nu', edge, 2, None, True))
+            items.append((1, 2, 'nu', edge, 3, None))
+            items.append((3, 8, 'cu', edge, 1, None, True))
+            items.append((3, 1, 'cu', edge, 2, None))
     items.append((3, 3, 'cu', 'periodic', 2, None))          # shifts of up to two domain widths of either sign
     items.append((3, 3, 'cu', 'fEq', 1, None, True))         # history: the object has already advanced another line
     items.append((2, 2, 'nu', 'null', 1, None, True))
@@ -298,7 +304,7 @@ def main():
     numenv.enable(extra_modules=[(adv, None), (acc, None), (m['init_funcs'], None)])
     run.stubs = sorted(set(numenv.STUBS)) + ['exp/tanh/sqrt uninterpreted (equilibrium is an arbitrary function of (r, v))']
     numenv.disable()
-    run.bounds = dict(shift='|c*dt| <= 1 x (vMax-vMin) (thorough up to 2 x)', spaces='uniform cubic 3 cells, general degree 3/2 cells (thorough more)', modes=EDGES)
+    run.bounds = dict(shift='|c*dt| <= 1 x (vMax-vMin) (thorough up to 3 x)', spaces='uniform cubic 3 cells, general degree 3/2 cells (thorough: uniform cubic 1, 3, 5, 8 cells, general degrees 1-5 with 2-4 cells, with and without an earlier step on the same object)', modes=EDGES)
     run.outside = ['rounding (feet within rounding distance of the boundary)', 'grid-level use of the gradient table: C05', 'larger v grids']
     run.assumptions = ['exact reals for doubles', 'solver contracts of C08']
     run.finish(
